@@ -1,6 +1,7 @@
 (* Run/JudgeC05.v — case type and judge for the C05 correspondence run (whole chains rdp_fixed(points, k), k = 0..n+1). *)
 From Coq Require Import ZArith List Arith Bool PrimFloat.
 From Knee Require Import Num NumFloat NpList Model.Mapping Model.RdpFixed Model.RdpFixedSpec.
+From Knee Require Export Model.RdpFixed.
 Import ListNotations.
 
 Fixpoint assoc {A B} (eqb : A -> A -> bool) (k : A) (tab : list (A * B)) : option B :=
@@ -18,48 +19,69 @@ Definition has_seg {B} (tab : list ((nat * nat) * B)) (l r : nat) : bool :=
   match assoc seg_eqb (l, r) tab with Some _ => true | None => false end.
 Definition f_eps : float := 0x1p-52%float.     (* np.finfo(float).eps *)
 
+(* the ordering score derived from its stated definition (Model/RdpFixed.v prio_derived): ct = chord table
+   (np.linalg.norm(points[l] - points[r-1]), order = triangle), rt = residual table (lf.linear_fit_residuals_points(points[l:r]),
+   order = segment); area needs only the configured distance table *)
+Definition prio_fn (ord : order) (dt : dtab_t) (ct rt : ptab_t) : nat -> nat -> float :=
+  @prio_derived FloatNum ord (prio_of ct) (prio_of rt) (dist_of dt).
+Definition prio_present (ord : order) (ct rt : ptab_t) (l r : nat) : bool :=
+  match ord with OTriangle => has_seg ct l r | OArea => true | OSegment => has_seg rt l r end.
+
 (* every segment with interior points of every index set in the list has a dist entry, and (unless it is the
-   root (0,n)) a priority entry *)
-Definition segs_present (n : nat) (dt : dtab_t) (pt : ptab_t) (sets : list (list nat)) : bool :=
+   root (0,n)) the entries its priority is derived from *)
+Definition segs_present (n : nat) (ord : order) (dt : dtab_t) (ct rt : ptab_t) (sets : list (list nat)) : bool :=
   forallb (fun S => forallb (fun ab => negb (wideb ab) ||
                                       (has_seg dt (fst ab) (snd ab + 1) &&
-                                       (((fst ab =? 0) && (snd ab + 1 =? n)) || has_seg pt (fst ab) (snd ab + 1))))
+                                       (((fst ab =? 0) && (snd ab + 1 =? n)) || prio_present ord ct rt (fst ab) (snd ab + 1))))
                             (adj_pairs S)) sets.
 (* shape facts of the oracle tables: length (dist l r) = r - l *)
 Definition shapes_ok (dt : dtab_t) : bool :=
   forallb (fun e => length (snd e) =? snd (fst e) - fst (fst e)) dt.
+(* Tier O precondition of the greedy clause: every derived priority of a tabulated non-root segment is non-NaN *)
+Definition prios_ordered (n : nat) (ord : order) (dt : dtab_t) (ct rt : ptab_t) : bool :=
+  forallb (fun e => let l := fst (fst e) in let r := snd (fst e) in
+                    ((l =? 0) && (r =? n)) || negb (prio_present ord ct rt l r) || negb (f_isnan (prio_fn ord dt ct rt l r))) dt.
+(* "the ordering score is the stated one": what rdp.order_* returned for a child segment (l,r) of a split the run performed
+   equals the derived value bit-for-bit *)
+Definition scores_ok (ord : order) (dt : dtab_t) (ct rt : ptab_t) (ot : ptab_t) : bool :=
+  forallb (fun e => f_same (snd e) (prio_fn ord dt ct rt (fst (fst e)) (snd (fst e)))) ot.
 
 Inductive case :=
   (* outs = [rdp_fixed(points, k, distance, order) for k in 0..n+1] on a curve of n points (None = exception / time-out);
-     dt, pt = the library's distance / order primitives evaluated on the segments *)
-  | CChain (n : nat) (dt : dtab_t) (pt : ptab_t) (outs : list out_t).
+     dt = configured distance primitive on the segments; ct / rt = chord lengths / fit residuals of the segments;
+     ot = (child segment, score) pairs returned by rdp.order_<ord>(points[a:b+1], g-a, distance_points) for the splits of the chain *)
+  | CChain (n : nat) (ord : order) (dt : dtab_t) (ct rt ot : ptab_t) (outs : list out_t).
 
-Definition model_chain (n : nat) (dt : dtab_t) (pt : ptab_t) : list out_t :=
-  map (fun k => @rdp_fixed FloatNum n f_eps (dist_of dt) (prio_of pt) n k) (seq 0 (n + 2)).
+Definition model_chain (n : nat) (ord : order) (dt : dtab_t) (ct rt : ptab_t) : list out_t :=
+  map (fun k => @rdp_fixed FloatNum n f_eps (dist_of dt) (prio_fn ord dt ct rt) n k) (seq 0 (n + 2)).
 
 (* result code = 100 * agree + holds.
-   agree: 0 the model's chain = the implementation's chain, 1 differs, 4 an oracle entry the model needs is missing,
-          5 a priority is NaN (Python's sort on NaN keys is not modelled; judged on the predicate only), 6 outside the domain
-   holds (the predicate of theorem C05_chain, on the implementation's chain):
-          1 size / well-formedness, 2 not nested with the guarded split index, 3 split segment not of maximal priority,
-          4 an interior point is farther than the chosen one, 8 oracle entry missing for the implementation's chain, 9 chain length *)
+   agree: 0 the model's chain (with DERIVED priorities) = the implementation's chain, 1 differs, 4 an oracle entry the model needs
+          is missing, 5 a priority is NaN (Python's sort on NaN keys is not modelled; judged on the predicate only), 6 outside the domain
+   holds (the predicate of theorem C05_chain_holds with the derived priorities, on the implementation's chain):
+          1 size / well-formedness, 2 not nested with the guarded split index, 3 split segment not of maximal (derived) priority,
+          4 an interior point is farther than the chosen one, 5 an ordering score returned by rdp.order_* is not the stated one,
+          8 oracle entry missing for the implementation's chain, 9 chain length *)
 Definition judge (c : case) : Z :=
   match c with
-  | CChain n dt pt outs =>
+  | CChain n ord dt ct rt ot outs =>
       if negb (2 <=? n) then 600%Z else
-      let mc := model_chain n dt pt in
-      let ordered := forallb (fun e => negb (f_isnan (snd e))) pt in
+      let pr := prio_fn ord dt ct rt in
+      let mc := model_chain n ord dt ct rt in
+      let ordered := prios_ordered n ord dt ct rt in
       let a := if negb (shapes_ok dt) then 1%Z
-               else if negb (segs_present n dt pt (map red_of mc)) then 4%Z
+               else if negb (segs_present n ord dt ct rt (map red_of mc)) then 4%Z
                else if negb ordered then 5%Z
                else if list_eqb out_eqb mc outs then 0%Z else 1%Z in
-      let h := if negb (segs_present n dt pt (map red_of outs)) then
-                 (* a malformed chain can also show up as missing entries: report the size code first *)
-                 match @chain_code FloatNum n f_eps (dist_of dt) (prio_of pt) ordered outs with
-                 | 0 => 8%Z | c => Z.of_nat c end
-               else Z.of_nat (@chain_code FloatNum n f_eps (dist_of dt) (prio_of pt) ordered outs) in
+      let cc := @chain_code FloatNum n f_eps (dist_of dt) pr ordered outs in
+      let h := match cc with
+               | 0 => if negb (segs_present n ord dt ct rt (map red_of outs)) then 8%Z
+                      else if negb (scores_ok ord dt ct rt ot) then 5%Z else 0%Z
+               | c => Z.of_nat c
+               end in
       (100 * a + h)%Z
   end.
 
-Definition show (c : case) : list out_t :=
-  match c with CChain n dt pt outs => model_chain n dt pt end.
+Definition show (c : case) : list out_t * list ((nat * nat) * float) :=
+  match c with CChain n ord dt ct rt ot outs =>
+    (model_chain n ord dt ct rt, map (fun e => (fst e, prio_fn ord dt ct rt (fst (fst e)) (snd (fst e)))) ot) end.
